@@ -10,7 +10,15 @@ for c in man["checks"]:
     pid = c["property_id"]
     ev = json.load(open(os.path.join(HERE, "evidence", f"{pid}.json")))
     cov = ev["coverage"]
-    mods = sorted({t.rsplit(".", 1)[0] for t in cov.get("theorems", [])})
+    mods = {t.rsplit(".", 1)[0] for t in cov.get("theorems", [])}
+    # modules named by the harness module(s) of the property (theorems of several files may share one namespace)
+    import re as _re
+    for hp in [pid.lower()] + ([pid.lower() + "_fixed", pid.lower() + "_var"] if pid == "C06" else []):
+        hf = os.path.join(HERE, "harness", "props", hp + ".py")
+        if os.path.exists(hf):
+            for lm in _re.findall(r"lean_modules\s*=\s*\[([^\]]*)\]", open(hf).read()):
+                mods.update(_re.findall(r'"(SpVerif\.Props\.[A-Za-z0-9_]+)"', lm))
+    mods = sorted(mods)
     files = []
     for m in mods:
         m2 = m.replace("SpVerif.Props.", "")
